@@ -343,7 +343,7 @@ func (fc *FuncCtx) runGhostAts(call *ast.CallExpr, before bool, st *St, results 
 	}
 	ord := fc.callOrd[call]
 	for _, ga := range fc.Con.GhostAts {
-		if ga.Callee != name || ga.Ord != ord || ga.Before != before {
+		if ga.Kind != "call" || ga.Callee != name || ga.Ord != ord || ga.Before != before {
 			continue
 		}
 		extra := map[string]Term{}
